@@ -271,6 +271,18 @@ def periodSum (id now period : Nat) : AMap (Nat × Nat) → Int
   | [] => 0
   | (k, v) :: r => (if k.1 = id ∧ now ≤ k.2 + period then v else 0) + periodSum id now period r
 
+/-- `ClearOld*Amounts` for one history: for every EXISTING basket the entries older than the basket's current limits
+period are deleted (those the period sums no longer count); entries of other ids stay -/
+def pruneH (bs : List Basket) (now : Nat) (h : AMap (Nat × Nat)) : AMap (Nat × Nat) :=
+  h.filter (fun e => match bs.find? (fun b => b.id == e.1.1) with
+    | some b => decide (now ≤ e.1.2 + b.limitsPeriod)
+    | none => true)
+
+/-- the module's EndBlocker (x/basket/abci.go) -/
+def endBlock (s : St) : St :=
+  { s with mintH := pruneH s.baskets s.now s.mintH, burnH := pruneH s.baskets s.now s.burnH,
+           swapH := pruneH s.baskets s.now s.swapH }
+
 /-! ## mint -/
 
 /-- the loop of `MintBasketToken`: Σ amount · rate; `none` for an unknown denom or a token with deposits disabled -/
